@@ -151,11 +151,49 @@ func genC15(r *sim.Rng, tier string, idx int) *GCase {
 			}
 		}
 		used[f.Name] = true
+		switch r.Weighted([]int{24, 2, 1, 1}) {
+		case 1:
+			// the operand is a symbolic link (followed only with -f); its referent
+			// may carry the very name the output is going to get
+			link := FileSpec{Name: f.Name, Kind: "symlink"}
+			forced := v
+			forced.Force, forced.Stdout = true, false
+			probe := &GCase{Files: []FileSpec{f}}
+			e := modelOperand(&forced, stateOf(buildWorld(probe)), f.Name)
+			real := f
+			if e.Target != "" && !used[e.Target] && r.Bool() {
+				real.Name = e.Target
+			} else {
+				real.Name = pickName(false) + ".real"
+			}
+			used[real.Name] = true
+			link.Target = real.Name
+			c.Files = append(c.Files, real)
+			f = link
+		case 2:
+			f = FileSpec{Name: f.Name, Kind: "symlink", Target: "nowhere"} // dangling
+		case 3:
+			f = FileSpec{Name: f.Name, Kind: "dir"}
+		}
 		c.Files = append(c.Files, f)
 		if r.Chance(1, 12) {
 			v.Files = append(v.Files, pickName(dash)+".missing") // a missing operand
 		}
 		v.Files = append(v.Files, f.Name)
+		// a file left behind under the name of gxz's temporary output
+		if r.Chance(1, 12) {
+			e := modelOperand(&v, stateOf(buildWorld(c)), f.Name)
+			ext := ".compress"
+			if v.Decompress {
+				ext = ".decompress"
+			}
+			if e.Target != "" && !used[e.Target+ext] {
+				used[e.Target+ext] = true
+				t := genPlainFile(r, e.Target+ext, 3000)
+				t.Mode = sim.Pick(r, []uint32{0o666, 0o777, 0o644, 0o600})
+				c.Files = append(c.Files, t)
+			}
+		}
 		// an existing target now and then
 		if r.Chance(1, 6) {
 			e := modelOperand(&v, stateOf(buildWorld(c)), f.Name)
@@ -165,6 +203,17 @@ func genC15(r *sim.Rng, tier string, idx int) *GCase {
 			}
 		}
 	}
+	if nops > 0 && r.Chance(1, 8) {
+		// standard input as one operand among files ("gxz a - b")
+		if v.Decompress {
+			c.Files = append(c.Files, FileSpec{Name: "\x00stdin", Kind: "stream", Stream: genForeignStream(r, format)})
+		} else {
+			pl := sim.GenPayload(r, 2000)
+			c.Files = append(c.Files, FileSpec{Name: "\x00stdin", Kind: "plain", Payload: &pl})
+		}
+		at := r.Intn(len(v.Files) + 1)
+		v.Files = append(v.Files[:at], append([]string{"-"}, v.Files[at:]...)...)
+	}
 	c.Runs = append(c.Runs, v)
 	// follow-up runs: the inverse operation on what the first run produced
 	st := stateOf(buildWorld(c))
@@ -172,6 +221,9 @@ func genC15(r *sim.Rng, tier string, idx int) *GCase {
 	for k := 1; k < nruns; k++ {
 		var produced []string
 		for _, op := range prev.Files {
+			if op == "-" {
+				continue // standard input to standard output: nothing produced on disk
+			}
 			e := modelOperand(&prev, st, op)
 			var out []byte
 			if !e.Fail && !e.ToStdout {
@@ -264,63 +316,74 @@ func runC15(c *GCase, x *sim.Ctx) *sim.Violation {
 			mode = "decompress"
 		}
 		x.Shape(fmt.Sprintf("%s:n%d", mode, len(v.Files)))
-		// model
-		var exps []Expect
-		model := st.clone()
-		anyFail := false
-		var wantStdoutPlain []byte
-		stdoutFormat := ""
-		stdinRun := len(v.Files) == 0 || (len(v.Files) == 1 && v.Files[0] == "-")
-		if stdinRun {
-			// stdin -> stdout
-			e := Expect{Operand: "-", ToStdout: true, Compress: !v.Decompress}
-			f := v.Format
-			if f == "alone" {
-				f = "lzma"
-			}
-			if !v.Decompress {
-				if f == "" || f == "auto" {
-					f = "xz"
-				}
-				e.Format, e.Plain = f, w.Stdin
-				if c.TTY && !v.Force {
-					e.Fail, e.Why = true, "compressed data to a terminal"
-				}
-			} else {
-				if f == "" || f == "auto" {
-					f = sniff(w.Stdin)
-				} else if sniff(w.Stdin) != f {
-					f = ""
-				}
-				if pl, ok := refDecode(f, w.Stdin); f != "" && ok {
-					e.Format, e.Plain = f, pl
-				} else {
-					e.Fail, e.Why = true, "bad standard input"
-				}
-			}
-			exps = append(exps, e)
+		// model; forceFail lists operand positions that are taken to fail
+		// although the documented semantics would let them succeed (only
+		// operands flagged MayFail, see below)
+		type expectation struct {
+			exps            []Expect
+			model           fsState
+			anyFail         bool
+			wantStdoutPlain []byte
+			stdoutFormat    string
+			usesStdout      bool
+			mayFail         []int
+			free            map[string]bool // names whose fate is not constrained (stale temporary files)
 		}
-		for _, op := range v.Files {
-			if stdinRun {
-				break
+		stdin0 := w.Stdin
+		expect := func(forceFail map[int]bool) *expectation {
+			var exps []Expect
+			model := st.clone()
+			anyFail := false
+			var wantStdoutPlain []byte
+			stdoutFormat := ""
+			var mayFail []int
+			free := map[string]bool{}
+			// a "-" operand (and an invocation without operands) is standard input
+			// written to standard output; other operands stay independent of it
+			operands := v.Files
+			if len(operands) == 0 {
+				operands = []string{"-"}
 			}
-			e := modelOperand(v, model, op)
-			exps = append(exps, e)
-			var out []byte
-			if !e.Fail && !e.ToStdout {
-				out = e.Plain // placeholder; compressed outputs are compared by decoding
+			stdin := stdin0
+			usesStdout := v.Stdout
+			for oi, op := range operands {
+				if op == "-" {
+					exps = append(exps, modelStdin(v, stdin, c.TTY))
+					stdin = nil // a second "-" finds standard input at its end
+					usesStdout = true
+					continue
+				}
+				e := modelOperand(v, model, op)
+				if !e.Fail && !e.ToStdout && staleTempFor(model, e) != "" {
+					// A file already sits under the name gxz uses for its temporary
+					// output. Nothing documented says whether the operand is then
+					// refused or the stale file replaced: both are accepted, each
+					// with its full consequences (see the two attempts below).
+					mayFail = append(mayFail, oi)
+					free[staleTempFor(model, e)] = true
+					if forceFail[oi] {
+						e = Expect{Operand: op, Compress: e.Compress, Fail: true, Why: "temporary name taken"}
+					}
+				}
+				exps = append(exps, e)
+				var out []byte
+				if !e.Fail && !e.ToStdout {
+					out = e.Plain // placeholder; compressed outputs are compared by decoding
+				}
+				applyExpect(model, e, out)
 			}
-			applyExpect(model, e, out)
+			for _, e := range exps {
+				if e.Fail {
+					anyFail = true
+					x.Count("operand-fails."+e.Why, 1)
+				} else if e.ToStdout {
+					wantStdoutPlain = append(wantStdoutPlain, e.Plain...)
+					stdoutFormat = e.Format
+				}
+			}
+			return &expectation{exps, model, anyFail, wantStdoutPlain, stdoutFormat, usesStdout, mayFail, free}
 		}
-		for _, e := range exps {
-			if e.Fail {
-				anyFail = true
-				x.Count("operand-fails."+e.Why, 1)
-			} else if e.ToStdout {
-				wantStdoutPlain = append(wantStdoutPlain, e.Plain...)
-				stdoutFormat = e.Format
-			}
-		}
+		base := expect(nil)
 		w.Stdin = append([]byte(nil), w.Stdin...)
 		res := invoke(w, args)
 		x.Eval(1)
@@ -328,75 +391,153 @@ func runC15(c *GCase, x *sim.Ctx) *sim.Violation {
 		x.Step("invocations", 1)
 		x.Step("fs", int64(len(w.Ops)))
 		x.Ev("run %d args=%q exit=%d names=%v", ri, args, res.Exit, w.Names())
-		site := fmt.Sprintf("%s:run%d", mode, ri)
-		what := fmt.Sprintf("run %d gxz %q", ri, args)
-		if res.Panicked != "" {
-			return sim.Viol("gxz-panic", site, "%s panicked: %s", what, res.Panicked)
-		}
-		if anyFail && res.Exit == 0 {
-			return sim.Viol("exit-status", site+":0-despite-failure", "%s exited 0 although an operand could not be processed (%s)", what, failList(exps))
-		}
-		if !anyFail && res.Exit != 0 {
-			return sim.Viol("exit-status", site+":nonzero-without-failure", "%s exited %d although every operand can be processed; stderr: %s", what, res.Exit, firstLine(res.Stderr))
-		}
-		// tree
-		got := stateOf(w)
-		for name, m := range model {
-			g := got[name]
-			if g == nil {
-				return sim.Viol("tree", site+":missing", "%s: %q should exist afterwards (%s)", what, name, roleOf(name, exps))
+		judge := func(ex *expectation) *sim.Violation {
+			exps, model, anyFail, wantStdoutPlain, stdoutFormat, usesStdout := ex.exps, ex.model, ex.anyFail, ex.wantStdoutPlain, ex.stdoutFormat, ex.usesStdout
+			site := fmt.Sprintf("%s:run%d", mode, ri)
+			what := fmt.Sprintf("run %d gxz %q", ri, args)
+			if res.Panicked != "" {
+				return sim.Viol("gxz-panic", site, "%s panicked: %s", what, res.Panicked)
 			}
-			isOut := false
-			for _, e := range exps {
-				if !e.Fail && e.Target == name {
-					isOut = true
-					if e.Compress {
-						if ok, why := decodesTo(e.Format, g.data, e.Plain); !ok {
-							return sim.Viol("output-content", site+":compressed", "%s: %q is not a valid %s form of the input: %s", what, name, e.Format, why)
+			if anyFail && res.Exit == 0 {
+				return sim.Viol("exit-status", site+":0-despite-failure", "%s exited 0 although an operand could not be processed (%s)", what, failList(exps))
+			}
+			if !anyFail && res.Exit != 0 {
+				return sim.Viol("exit-status", site+":nonzero-without-failure", "%s exited %d although every operand can be processed; stderr: %s", what, res.Exit, firstLine(res.Stderr))
+			}
+			// tree
+			got := stateOf(w)
+			for name, m := range model {
+				if ex.free[name] {
+					continue
+				}
+				g := got[name]
+				if g == nil {
+					return sim.Viol("tree", site+":missing", "%s: %q should exist afterwards (%s)", what, name, roleOf(name, exps))
+				}
+				isOut := false
+				for _, e := range exps {
+					if !e.Fail && e.Target == name {
+						isOut = true
+						if e.Compress {
+							if ok, why := decodesTo(e.Format, g.data, e.Plain); !ok {
+								return sim.Viol("output-content", site+":compressed", "%s: %q is not a valid %s form of the input: %s", what, name, e.Format, why)
+							}
+						} else if !bytes.Equal(g.data, e.Plain) {
+							return sim.Viol("output-content", site+":decompressed", "%s: %q differs from the reference decoding at %d (%d vs %d bytes)", what, name, firstDiffB(g.data, e.Plain), len(g.data), len(e.Plain))
 						}
-					} else if !bytes.Equal(g.data, e.Plain) {
-						return sim.Viol("output-content", site+":decompressed", "%s: %q differs from the reference decoding at %d (%d vs %d bytes)", what, name, firstDiffB(g.data, e.Plain), len(g.data), len(e.Plain))
+						if g.mode.Perm()&^inModeOf(st, e).Perm() != 0 {
+							return sim.Viol("permissions", site, "%s: output %q has mode %o, input had %o", what, name, g.mode.Perm(), inModeOf(st, e).Perm())
+						}
+						// keep the real bytes for later runs
+						m.data, m.mode = g.data, g.mode
 					}
-					if g.mode.Perm()&^inModeOf(st, e).Perm() != 0 {
-						return sim.Viol("permissions", site, "%s: output %q has mode %o, input had %o", what, name, g.mode.Perm(), inModeOf(st, e).Perm())
+				}
+				if !isOut && (!bytes.Equal(g.data, m.data) || g.mode != m.mode || g.link != m.link) {
+					return sim.Viol("tree", site+":changed", "%s: %q must be left as it was (%s)", what, name, roleOf(name, exps))
+				}
+			}
+			for name := range got {
+				if model[name] == nil && !ex.free[name] {
+					return sim.Viol("tree", site+":extra", "%s: %q should not exist afterwards (%s)", what, name, roleOf(name, exps))
+				}
+			}
+			// stdout
+			if usesStdout {
+				if !v.Decompress {
+					plain, ok := decodeConcat(stdoutFormat, res.Stdout)
+					if stdoutFormat == "" {
+						plain, ok = nil, len(res.Stdout) == 0
 					}
-					// keep the real bytes for later runs
-					m.data, m.mode = g.data, g.mode
+					if !ok || !bytes.Equal(plain, wantStdoutPlain) {
+						return sim.Viol("stdout", site+":compressed", "%s: standard output (%d bytes) does not decode to the concatenated inputs (%d bytes)", what, len(res.Stdout), len(wantStdoutPlain))
+					}
+				} else if !anyFail && !bytes.Equal(res.Stdout, wantStdoutPlain) {
+					return sim.Viol("stdout", site+":decompressed", "%s: standard output differs from the reference decoding (%d vs %d bytes)", what, len(res.Stdout), len(wantStdoutPlain))
+				}
+			} else if len(res.Stdout) != 0 {
+				return sim.Viol("stdout", site+":unexpected", "%s wrote %d bytes to standard output without -c", what, len(res.Stdout))
+			}
+			return nil
+		}
+		chosen := base
+		if viol := judge(base); viol != nil {
+			// every subset of the MayFail operands failing instead is acceptable too
+			ok := false
+			for mask := 1; mask < 1<<len(base.mayFail) && len(base.mayFail) <= 4; mask++ {
+				ff := map[int]bool{}
+				for b, oi := range base.mayFail {
+					if mask>>b&1 == 1 {
+						ff[oi] = true
+					}
+				}
+				alt := expect(ff)
+				if judge(alt) == nil {
+					ok, chosen = true, alt
+					break
 				}
 			}
-			if !isOut && (!bytes.Equal(g.data, m.data) || g.mode != m.mode) {
-				return sim.Viol("tree", site+":changed", "%s: %q must be left as it was (%s)", what, name, roleOf(name, exps))
+			if !ok {
+				return viol
 			}
 		}
-		for name := range got {
-			if model[name] == nil {
-				return sim.Viol("tree", site+":extra", "%s: %q should not exist afterwards (%s)", what, name, roleOf(name, exps))
-			}
-		}
-		// stdout
-		if v.Stdout || stdinRun {
-			if !v.Decompress {
-				plain, ok := decodeConcat(stdoutFormat, res.Stdout)
-				if stdoutFormat == "" {
-					plain, ok = nil, len(res.Stdout) == 0
-				}
-				if !ok || !bytes.Equal(plain, wantStdoutPlain) {
-					return sim.Viol("stdout", site+":compressed", "%s: standard output (%d bytes) does not decode to the concatenated inputs (%d bytes)", what, len(res.Stdout), len(wantStdoutPlain))
-				}
-			} else if !anyFail && !bytes.Equal(res.Stdout, wantStdoutPlain) {
-				return sim.Viol("stdout", site+":decompressed", "%s: standard output differs from the reference decoding (%d vs %d bytes)", what, len(res.Stdout), len(wantStdoutPlain))
-			}
-		} else if len(res.Stdout) != 0 {
-			return sim.Viol("stdout", site+":unexpected", "%s wrote %d bytes to standard output without -c", what, len(res.Stdout))
-		}
+		model := chosen.model
 		st = model
 		w = w.Clone()
 	}
 	return nil
 }
 
+// modelStdin is the expectation for a "-" operand: standard input is
+// compressed or decompressed to standard output.
+func modelStdin(v *Inv, stdin []byte, tty bool) Expect {
+	e := Expect{Operand: "-", ToStdout: true, Compress: !v.Decompress}
+	f := v.Format
+	if f == "alone" {
+		f = "lzma"
+	}
+	if !v.Decompress {
+		if f == "" || f == "auto" {
+			f = "xz"
+		}
+		e.Format, e.Plain = f, stdin
+		if tty && !v.Force {
+			e.Fail, e.Why = true, "compressed data to a terminal"
+		}
+		return e
+	}
+	if f == "" || f == "auto" {
+		f = sniff(stdin)
+	} else if sniff(stdin) != f {
+		f = ""
+	}
+	if pl, ok := refDecode(f, stdin); f != "" && ok {
+		e.Format, e.Plain = f, pl
+	} else {
+		e.Fail, e.Why = true, "bad standard input"
+	}
+	return e
+}
+
+// staleTempFor returns the name of an existing file that occupies the name
+// gxz gives its temporary output for this operand ("" if there is none).
+func staleTempFor(st fsState, e Expect) string {
+	if e.Target == "" {
+		return ""
+	}
+	for _, ext := range []string{".compress", ".decompress"} {
+		if (ext == ".compress") == e.Compress && st[e.Target+ext] != nil {
+			return e.Target + ext
+		}
+	}
+	return ""
+}
+
 func inModeOf(st fsState, e Expect) os.FileMode {
-	if f := st[e.Operand]; f != nil {
+	f := st[e.Operand]
+	if f != nil && f.link != "" {
+		f = st[f.link] // the permission bits of a symbolic link's referent
+	}
+	if f != nil {
 		return f.mode
 	}
 	return 0
